@@ -1385,9 +1385,22 @@ def transform(fn, proceed, to_instrument=True, set_conformer=True):
         # If the function is a closure, we have created a function
         # called #WRAP that takes the closure variables as arguments
         # and returns the function that interests us.
-        actual_fn = scratch["#WRAP"](
-            *[cell.cell_contents for cell in fn.__closure__]
+        # The instrumented function shares the cells of fn: both see the
+        # same closure variables, whoever rebinds them, and whether or not
+        # they have a value yet.
+        template = scratch["#WRAP"](*[None for _ in fn.__closure__])
+        cells = dict(zip(fn.__code__.co_freevars, fn.__closure__))
+        actual_fn = types.FunctionType(
+            template.__code__,
+            glb,
+            template.__name__,
+            None,
+            tuple(cells[name] for name in template.__code__.co_freevars),
         )
+        actual_fn.__qualname__ = template.__qualname__
+        actual_fn.__annotations__ = template.__annotations__
+        actual_fn.__doc__ = template.__doc__
+        actual_fn.__module__ = template.__module__
     else:
         actual_fn = scratch[fname]
 
